@@ -133,9 +133,18 @@ def leaf_type_norm(ty):
     return {'utils::string::SharedString': 'str', 'std::string::String': 'str'}.get(ty, ty)
 
 
+def _with_delegates(F, body, name, trait):
+    """an impl that forwards to another impl of the same trait in this crate (`(self as &dyn Key).hash(h)`) is analysed
+    with that impl written in place"""
+    dels = sorted({c.callee.best for c in body.calls() if c.callee and c.callee.name == name and c.callee.trait == trait
+                   and c.callee.best != body.path and F.body(c.callee.best) is not None})
+    return F.view(body.path, dels) if dels else body
+
+
 def hash_sequence(F, body, depth=0):
     """ordered list of (field-or-accessor, leaf type) hashed by a Hash::hash body.
     Follows in-crate `as_borrowed()`-style forwarding one level."""
+    body = _with_delegates(F, body, 'hash', 'std::hash::Hash')
     out = []
     for c in body.calls():
         if c.exp and c.callee and c.callee.trait != 'std::hash::Hash':
@@ -162,6 +171,7 @@ def eq_structure(F, body):
     """Analyse a PartialEq::eq body: returns (fields, ok, why).
     fields = ordered list of (accessor, leaf type) compared; ok = the result
     is the conjunction of all of them (any false => false)."""
+    body = _with_delegates(F, body, 'eq', 'std::cmp::PartialEq')
     eqs = []
     for c in body.calls():
         cal = c.callee
